@@ -125,6 +125,10 @@ class Ctx:
         }
         with open(os.path.join(EVIDENCE, self.prop + ".json"), "w") as f:
             json.dump(ev, f, indent=1, sort_keys=True)
+        if os.path.isdir(REPLAYS):
+            for fn in os.listdir(REPLAYS):           # replay files of earlier runs of this property are stale
+                if fn.startswith(self.prop + "-") and fn.endswith(".json"):
+                    os.unlink(os.path.join(REPLAYS, fn))
         if self.violations:
             os.makedirs(REPLAYS, exist_ok=True)
             shown = set()
